@@ -45,17 +45,25 @@ def run(ctx):
         if not ok:
             raise runner.Inconclusive(f"hook-free fault-injection leg cannot run: {why}")
         t = [time.time()]
-        a = fc.run_sets(ctx, tool, scratch, "c19", ctx.pick(1500, 60000), "c19a", max_steps=3, disk_factor=6)
+        a = fc.run_sets(ctx, tool, scratch, "c19", ctx.pick(1500, 40000), "c19a", max_steps=3, disk_factor=6)
         t.append(time.time())
-        b = fc.run_projects(ctx, tool, cli, scratch, ctx.pick(150, 3000), "c19b", c19=True, nversions=4)
+        b = fc.run_projects(ctx, tool, cli, scratch, ctx.pick(150, 1500), "c19b", c19=True, nversions=4)
         t.append(time.time())
-        s = fc.run_strace_leg(ctx, cli, scratch, ctx.pick(3, 40), "c19s", "C19")
+        v = fc.violations_from("C19", a["findings"], "sets") + fc.violations_from("C19", b["findings"], "session")
+        try:
+            s = fc.run_strace_leg(ctx, cli, scratch, ctx.pick(3, 24), "c19s", "C19")
+        except runner.Inconclusive as e:
+            if not v:
+                raise
+            # the in-process legs already refute the property; an unusable hook-free leg must not hide that
+            s = {"projects": 1, "points": 0, "stats": {}, "violations": [], "samples": [], "fingerprints": set(), "nontrivial": 0,
+                 "missed": 1, "inconclusive": str(e)}
         t.append(time.time())
     finally:
         scratch.cleanup()
-    v = fc.violations_from("C19", a["findings"], "sets") + fc.violations_from("C19", b["findings"], "session") + s["violations"]
+    v += s["violations"]
     bad_cross = [x for x in b["cross"] if not x["ok"] or x["diffs"]]
-    if bad_cross:
+    if bad_cross and not v:
         raise runner.Inconclusive(f"in-process session and real CLI disagree for the same sources ({len(bad_cross)} cases), e.g. {bad_cross[0]}")
     if s["projects"] == 0:
         raise runner.Inconclusive("no generated project was usable for the strace leg")
@@ -92,6 +100,7 @@ def run(ctx):
         "leg_b_observed": b["stats"], "leg_b_tool_errors": len(b["errors"]), "leg_b_cli_cross_checks_equal": len(b["cross"]),
         "leg_s_projects": s["projects"], "leg_s_injection_runs": s["points"], "leg_s_injections_that_missed_the_artifact_directory": s["missed"],
         "leg_s_by_syscall_and_fault": strace_kinds,
+        "leg_s_inconclusive": s.get("inconclusive"),
         "leg_wall_s": [round(t[i + 1] - t[i], 1) for i in range(3)],
     }
     return runner.finish(ctx, LEVEL, cov, v, assumptions=[
